@@ -224,7 +224,13 @@ Fixpoint nw_go (l : list byte) (mode : option byte) (cnt : nat) : nat :=
     | None => if isspace c then nw_go t None cnt
               else if is_quote c then nw_go t (Some c) (S cnt)
               else nw_go t (Some 0) (S cnt)
-    | Some d => if is_delim d c then nw_go t None cnt else nw_go t mode cnt
+    | Some d =>
+      if is_delim d c then nw_go t None cnt
+      else match t with
+           (* a backslash-escaped quote inside a word is stepped over (repo fix 7e90004) *)
+           | c2 :: t2 => if (c =? 92) && is_quote c2 then nw_go t2 mode cnt else nw_go t mode cnt
+           | [] => nw_go t mode cnt
+           end
     end
   end.
 Definition num_words (s : list byte) : nat := nw_go s None O.
@@ -698,10 +704,11 @@ Definition flag_kind (o : opt) : bool := negb (needs_value o) && negb (is_abstra
 (* an option that takes VALUE: string or integer (value pointer checked by the parser), or abstract *)
 Definition value_kind (o : opt) (v : word) : bool :=
   negb (is_boolean o) &&
-  ((needs_value o && (is_string o || is_integer o) && is_some (o_slot o))
+  ((needs_value o && (is_string o || is_integer o) && negb (is_abstract o) && is_some (o_slot o))
    || (negb (needs_value o) && is_abstract o && is_some (o_slot o) && negb (hd 0 v =? 45))).
 Definition list_kind (o : opt) : bool :=
-  negb (is_boolean o) && negb (is_string o) && negb (is_integer o) && is_arglist o && is_some (o_slot o).
+  negb (is_boolean o) && negb (is_string o) && negb (is_integer o) && is_arglist o && negb (is_abstract o) &&
+  is_some (o_slot o).
 Definition bool_kind (o : opt) : bool := is_boolean o && negb (needs_value o) && negb (is_abstract o).
 
 Definition opt_is (tbl : list opt) (r : optref) (p : opt -> bool) : bool :=
